@@ -363,6 +363,23 @@ def installed(sim, backend='tqdm', bar=False):
     cfp.ProcessPoolExecutor = cls
     cf.as_completed = _sim_as_completed
     cf.wait = _sim_wait
+    # names imported with `from concurrent.futures import ...` by (changed)
+    # emg3d modules are bound to the real functions: rebind them too
+    import sys
+    rebound = []
+    for mname, mod in list(sys.modules.items()):
+        if mname.startswith('emg3d') and mod is not None:
+            for name, real, fake in (
+                    ('as_completed', _real_as_completed, _sim_as_completed),
+                    ('wait', _real_wait, _sim_wait),
+                    ('ProcessPoolExecutor', RealProcessPoolExecutor, cls)):
+                if mod.__dict__.get(name) is real and mod is not mp:
+                    setattr(mod, name, fake)
+                    rebound.append((mod, name, real))
+                elif mod is mp and name != 'ProcessPoolExecutor' and \
+                        mod.__dict__.get(name) is real:
+                    setattr(mod, name, fake)
+                    rebound.append((mod, name, real))
     if backend == 'plain':
         mp.tqdm = None
     else:
@@ -371,6 +388,8 @@ def installed(sim, backend='tqdm', bar=False):
     try:
         yield cls
     finally:
+        for mod, name, real in rebound:
+            setattr(mod, name, real)
         mp.ProcessPoolExecutor, mp.tqdm = saved[0], saved[1]
         cf.as_completed, cf.wait = saved[2], saved[3]
         cf.__dict__['ProcessPoolExecutor'] = RealProcessPoolExecutor
